@@ -15,7 +15,9 @@
 EXTENDS Naturals, Sequences, FiniteSets, TLC
 
 CONSTANTS Streams, MaxSent, MaxWrite, MaxMsg, MaxTotal, MaxClose, Bufs,
-          Glitches   \* subset of {"dataerr", "temperr", "shortwrite"}: glitches of the underlying connection
+          Glitches,  \* subset of {"dataerr", "temperr", "shortwrite"}: glitches of the underlying connection
+          Cuts,      \* subset of {"cuteof", "cutrst"}: the underlying connection is cut (ends with EOF / with an error)
+          CutPos     \* ... after that many more frames of the direction have arrived (0 = at once)
 
 Dirs == {"ab", "ba"}
 Chans == Streams \X Dirs
@@ -24,11 +26,15 @@ VARIABLES opened, sent, wire, rbuf, wfin, rfin, delivered, eof,
           loose,   \* a glitch of the underlying connection was armed: the session may end at any moment from here
                    \* on (the muxer treats every error of the connection as fatal) or go on untouched (io.ReadFull
                    \* had its bytes); the model goes on as if intact, only the statement's clauses are judged
+          cut,     \* NoCut or the armed cut [d, left, kind]: the connection ends after `left` more frames of d arrived
+          dead,    \* the connection has ended: nothing in flight arrives any more, in either direction
+          failed,  \* the reader of the channel got an error as its terminal outcome (the other one is eof)
           op
-vars == <<opened, sent, wire, rbuf, wfin, rfin, delivered, eof, loose, op>>
-View == <<opened, sent, wire, rbuf, wfin, rfin, delivered, eof, loose>>
+vars == <<opened, sent, wire, rbuf, wfin, rfin, delivered, eof, loose, cut, dead, failed, op>>
+View == <<opened, sent, wire, rbuf, wfin, rfin, delivered, eof, loose, cut, dead, failed>>
 
 Min(a, b) == IF a < b THEN a ELSE b
+NoCut == [d |-> "none", left |-> 0, kind |-> "none"]
 IsPrefix(s, t) == Len(s) <= Len(t) /\ \A i \in 1..Len(s) : s[i] = t[i]
 SentSeq(c) == [i \in 1..sent[c] |-> i]
 RECURSIVE SumSent(_)
@@ -36,19 +42,20 @@ SumSent(S) == IF S = {} THEN 0 ELSE LET c == CHOOSE x \in S : TRUE IN sent[c] + 
 
 Init == /\ opened = {} /\ sent = [c \in Chans |-> 0] /\ wire = [d \in Dirs |-> <<>>]
         /\ rbuf = [c \in Chans |-> <<>>] /\ wfin = [c \in Chans |-> FALSE] /\ rfin = [c \in Chans |-> FALSE]
-        /\ delivered = [c \in Chans |-> <<>>] /\ eof = [c \in Chans |-> FALSE] /\ loose = FALSE /\ op = [name |-> "init"]
+        /\ delivered = [c \in Chans |-> <<>>] /\ eof = [c \in Chans |-> FALSE] /\ loose = FALSE /\ cut = NoCut /\ dead = FALSE
+        /\ failed = [c \in Chans |-> FALSE] /\ op = [name |-> "init"]
 
 \* streams are opened in increasing order per opener (the real ids are allocated that way)
 Open(s) ==
-  /\ s \notin opened
+  /\ s \notin opened /\ cut.kind = "none"
   /\ \A t \in Streams : (t < s /\ t % 2 = s % 2) => t \in opened
   /\ opened' = opened \cup {s}
   /\ op' = [name |-> "open", s |-> s, by |-> IF s % 2 = 1 THEN "a" ELSE "b"]
-  /\ UNCHANGED <<sent, wire, rbuf, wfin, rfin, delivered, eof, loose>>
+  /\ UNCHANGED <<sent, wire, rbuf, wfin, rfin, delivered, eof, loose, cut, dead, failed>>
 
 NFrames(k) == (k + MaxMsg - 1) \div MaxMsg
 Write(s, d, k) ==
-  /\ s \in opened /\ ~wfin[<<s, d>>]
+  /\ s \in opened /\ ~wfin[<<s, d>>] /\ ~dead
   /\ sent[<<s, d>>] + k <= MaxSent /\ SumSent(Chans) + k <= MaxTotal
   /\ LET base == sent[<<s, d>>]
          fs == [j \in 1..NFrames(k) |->
@@ -57,25 +64,29 @@ Write(s, d, k) ==
      IN wire' = [wire EXCEPT ![d] = @ \o fs]
   /\ sent' = [sent EXCEPT ![<<s, d>>] = @ + k]
   /\ op' = [name |-> "write", s |-> s, d |-> d, k |-> k]
-  /\ UNCHANGED <<opened, rbuf, wfin, rfin, delivered, eof, loose>>
+  /\ UNCHANGED <<opened, rbuf, wfin, rfin, delivered, eof, loose, cut, dead, failed>>
 
 CloseWrite(s, d) ==
-  /\ s \in opened /\ ~wfin[<<s, d>>]
+  /\ s \in opened /\ ~wfin[<<s, d>>] /\ ~dead
   /\ Cardinality({c \in Chans : wfin[c]}) < MaxClose
   /\ wfin' = [wfin EXCEPT ![<<s, d>>] = TRUE]
   /\ wire' = [wire EXCEPT ![d] = Append(@, [s |-> s, fin |-> TRUE, pt |-> <<>>])]
   /\ op' = [name |-> "closewrite", s |-> s, d |-> d]
-  /\ UNCHANGED <<opened, sent, rbuf, rfin, delivered, eof, loose>>
+  /\ UNCHANGED <<opened, sent, rbuf, rfin, delivered, eof, loose, cut, dead, failed>>
 
 \* the receiving session's read loop: internal, not driven by the harness
 Pump(d) ==
-  /\ wire[d] # <<>>
+  /\ wire[d] # <<>> /\ ~dead
   /\ LET f == Head(wire[d]) c == <<f.s, d>> IN
        /\ rbuf' = [rbuf EXCEPT ![c] = @ \o f.pt]
        /\ rfin' = [rfin EXCEPT ![c] = @ \/ f.fin]
   /\ wire' = [wire EXCEPT ![d] = Tail(@)]
+  /\ IF cut.kind # "none" /\ cut.d = d
+       THEN /\ cut' = [cut EXCEPT !.left = @ - 1]
+            /\ dead' = (cut.left = 1)          \* that was the last frame the connection carried
+       ELSE UNCHANGED <<cut, dead>>
   /\ op' = [name |-> "pump", d |-> d]
-  /\ UNCHANGED <<opened, sent, wfin, delivered, eof, loose>>
+  /\ UNCHANGED <<opened, sent, wfin, delivered, eof, loose, failed>>
 
 \* Read is offered when the real call is certain to return without further writes: data is buffered for the
 \* stream, or the buffer is empty and the FIN has arrived.  (The harness does not compare byte counts of
@@ -83,29 +94,47 @@ Pump(d) ==
 \* delivers to.)
 Read(s, d, b) ==
   LET c == <<s, d>> IN
-  /\ s \in opened /\ ~eof[c]
+  /\ s \in opened /\ ~eof[c] /\ ~failed[c]
   /\ \/ /\ rbuf[c] # <<>>
         /\ LET n == Min(b, Len(rbuf[c])) IN
              /\ delivered' = [delivered EXCEPT ![c] = @ \o SubSeq(rbuf[c], 1, n)]
              /\ rbuf' = [rbuf EXCEPT ![c] = SubSeq(@, n + 1, Len(@))]
              /\ op' = [name |-> "read", s |-> s, d |-> d, b |-> b, n |-> n, eof |-> FALSE,
                        halfclosed |-> wfin[<<s, IF d = "ab" THEN "ba" ELSE "ab">>]]
-        /\ UNCHANGED eof
+        /\ UNCHANGED <<eof, failed>>
      \/ /\ rbuf[c] = <<>> /\ rfin[c]
         /\ eof' = [eof EXCEPT ![c] = TRUE]
         /\ op' = [name |-> "read", s |-> s, d |-> d, b |-> b, n |-> 0, eof |-> TRUE,
                   halfclosed |-> wfin[<<s, IF d = "ab" THEN "ba" ELSE "ab">>]]
-        /\ UNCHANGED <<delivered, rbuf>>
-  /\ UNCHANGED <<opened, sent, wire, wfin, rfin, loose>>
+        /\ UNCHANGED <<delivered, rbuf, failed>>
+     \/ \* the connection was cut and this stream's FIN never arrived: the terminal outcome is an ERROR, never
+        \* a clean end (the reader must be able to tell a complete stream from a truncated one)
+        /\ rbuf[c] = <<>> /\ ~rfin[c] /\ dead
+        /\ failed' = [failed EXCEPT ![c] = TRUE]
+        /\ op' = [name |-> "read", s |-> s, d |-> d, b |-> b, n |-> 0, eof |-> FALSE, term |-> "err",
+                  halfclosed |-> wfin[<<s, IF d = "ab" THEN "ba" ELSE "ab">>]]
+        /\ UNCHANGED <<delivered, rbuf, eof>>
+  /\ UNCHANGED <<opened, sent, wire, wfin, rfin, loose, cut, dead>>
 
 \* the connection under direction d glitches once (bytes + timeout, temporary error, short write)
 Glitch(d, kind) ==
-  /\ kind \in Glitches /\ ~loose /\ opened # {}
+  /\ kind \in Glitches /\ ~loose /\ opened # {} /\ cut.kind = "none"
   /\ loose' = TRUE
   /\ op' = [name |-> "glitch", d |-> d, kind |-> kind]
-  /\ UNCHANGED <<opened, sent, wire, rbuf, wfin, rfin, delivered, eof>>
+  /\ UNCHANGED <<opened, sent, wire, rbuf, wfin, rfin, delivered, eof, cut, dead, failed>>
+
+\* the underlying connection is cut: it carries n more frames of direction d and then ends, for both directions
+\* and every stream, with a plain EOF ("cuteof": what a FIN of the transport or a cut at a frame boundary of the
+\* secure channel looks like) or with an error ("cutrst"); the harness also cuts inside a frame
+Cut(d, n, kind) ==
+  /\ kind \in Cuts /\ ~loose /\ cut.kind = "none" /\ opened # {}
+  /\ cut' = [d |-> d, left |-> n, kind |-> kind]
+  /\ dead' = (n = 0)
+  /\ op' = [name |-> "cut", d |-> d, n |-> n, kind |-> kind, open |-> Cardinality(opened)]
+  /\ UNCHANGED <<opened, sent, wire, rbuf, wfin, rfin, delivered, eof, loose, failed>>
 
 Next == \/ \E d \in Dirs, kind \in Glitches : Glitch(d, kind)
+        \/ \E d \in Dirs, n \in CutPos, kind \in Cuts : Cut(d, n, kind)
         \/ \E s \in Streams : Open(s)
         \/ \E s \in Streams, d \in Dirs, k \in 1..MaxWrite : Write(s, d, k)
         \/ \E s \in Streams, d \in Dirs : CloseWrite(s, d)
@@ -121,6 +150,11 @@ Of(w, s) == IF w = <<>> THEN <<>> ELSE (IF Head(w).s = s THEN Head(w).pt ELSE <<
 Conservation == \A c \in Chans : delivered[c] \o rbuf[c] \o Of(wire[c[2]], c[1]) = SentSeq(c)
 \* EOF is reported only after every byte written before CloseWrite has been delivered
 EofAfterAll == \A c \in Chans : eof[c] => delivered[c] = SentSeq(c)
+\* END OF STREAM: a clean EOF means that the writer half-closed the stream and that ALL it wrote was delivered;
+\* a stream truncated by a cut of the connection never ends cleanly
+CleanEof == \A c \in Chans : eof[c] => wfin[c] /\ delivered[c] = SentSeq(c)
+TruncatedNeverClean == \A c \in Chans : (dead /\ ~rfin[c]) => ~eof[c]
+OneTerminal == \A c \in Chans : ~(eof[c] /\ failed[c])
 \* half-close: closing one direction never ends the other one
 HalfClose == \A s \in Streams, d \in Dirs :
                LET o == IF d = "ab" THEN "ba" ELSE "ab" IN
